@@ -850,6 +850,9 @@ func init() {
 		externals[k] = v
 	}
 	externals["internal/reflectlite.TypeOf"] = ext۰reflect۰TypeOf
+	externals["(reflect.rtype).Comparable"] = func(fr *frame, a []value) value {
+		return types.Comparable(a[0].(rtype).t)
+	}
 	externals["internal/stringslite.Clone"] = func(fr *frame, a []value) value { return a[0] }
 	externals["strings.Clone"] = func(fr *frame, a []value) value { return a[0] }
 	externals["time.runtimeNano"] = func(fr *frame, a []value) value { return int64(0) }
